@@ -48,6 +48,7 @@ type dagScenario struct {
 	mu               sync.Mutex
 	ranOnAfterCancel bool
 	buffered         bool
+	readd            bool      // every task is handed to AddTask a second time after the edges are declared
 	payload          string    // written between the markers of every attempt
 	writer           io.Writer // replaces the recording writer of buffered output
 
@@ -196,6 +197,11 @@ func (s *dagScenario) build() {
 		}
 		if s.retries > 0 {
 			s.graph.TaskRetries(s.tasks[i], s.retries)
+		}
+	}
+	if s.readd {
+		for i := 0; i < s.n; i++ {
+			s.graph.AddTask(s.tasks[i])
 		}
 	}
 	if s.serial {
